@@ -37,7 +37,7 @@ func c13(r *Report) propMeta {
 	r.ArgHas("source-of-raw-request", cf, "Keeper.GetDataSource", 1, 1, "field:RawRequest.DataSourceID", "param:rawRequests")
 	r.ArgHas("collect-scaled-fee", cf, "FeeCollector.Collect", 1, 1, "call:Coins.Add", "call:Int.Mul")
 	r.ArgHas("collect-to-treasury", cf, "FeeCollector.Collect", 2, 1, "field:DataSource.Treasury")
-	r.Gate("all-or-error", cf, RetOK(), []Cond{nilErrOf("FeeCollector.Collect"), nilErrOf("Keeper.GetDataSource")}, GateOpts{LoopAll: true, FailIsError: true})
+	r.Gate("all-or-error", cf, RetOK(), []Cond{nilErrOf("FeeCollector.Collect"), nilErrOf("Keeper.GetDataSource")}, GateOpts{LoopAll: true, LoopMaySkip: true, FailIsError: true}) // data sources with an empty fee are skipped (reviewed `continue`)
 	r.Exists("returns-collected", cf, RetValEff(0, "call:FeeCollector.Collected"), 1)
 	r.NoWriteThrough("source-fee-not-mutated", cf, "field:DataSource.Fee")
 	r.Count("collect-once-per-source", cf, []Effect{CallEff("FeeCollector.Collect")}, "ok", 0, -1)
